@@ -27,8 +27,10 @@ def generate(rng, tier="quick"):
     kinds = () if fault_free else tuple(rng.subset(wl.FAULT_KINDS, 0.5, at_least=1))
     cfg = wl.gen_config(rng, tbl, max_ctx=3, max_tests=3, fault_kinds=kinds, max_faults=4)
     pool = tuple(f for f in STREAM_FES if not (tbl.get("unsorted") and f.startswith("xarray")))
+    if tbl.get("no_files"):
+        pool = tuple(f for f in pool if not f.endswith("_path"))
     fes = rng.subset(pool, 0.45, at_least=1)
-    if not tbl.get("unsorted") and not tbl.get("no_time") and tbl.get("xr_time", "coord") == "coord" and rng.chance(0.12):
+    if not tbl.get("no_files") and not tbl.get("unsorted") and not tbl.get("no_time") and tbl.get("xr_time", "coord") == "coord" and rng.chance(0.12):
         # an xarray dataset whose variables do not all share their dimensions: "w" lives on a dimension of
         # its own, so the stream has no time / depth / position to supply for it (fault kind F4, by construction)
         n = len(tbl["times"])
@@ -275,7 +277,7 @@ def execute(scn):
     seams.register_sim_functions()
     del seams.PROBE_LOG[:]
     tbl, cfg = scn["table"], scn["config"]
-    times = tbl["times"]
+    times = pl.row_times(tbl)
     arrays = pl.table_arrays(tbl)
     V = []
     stats = {"faults": {}, "probes": {}, "solo_runs": 0, "compared": 0}
@@ -456,7 +458,7 @@ def check_collected(scn, r, ys, solo_keys, times, V, stats, bump):
 
 def check_qcconfig(scn, r, ys, exp, solos, V, stats, bump):
     tbl = scn["table"]
-    times = tbl["times"]
+    times = pl.row_times(tbl)
     got = ys[0][0][1]
     sid = scn.get("qc_sid") or next(iter(tbl["cols"]))
     gotj = rp.dict_results_json(got)
